@@ -83,6 +83,7 @@ namespace awkward {
     for (auto x : contents_) {
       x.get()->clear();
     }
+    contents_.clear();
     keys_.clear();
     pointers_.clear();
     name_ = "";
